@@ -12,7 +12,7 @@
 (* group) — RightAssociativeEqualPrecedence and ShowParseInverse tie them.  *)
 EXTENDS Values, Json
 
-CONSTANT MaxDepth
+CONSTANTS MaxDepth, WithGroups
 
 Atoms == {"a", "b", "c"}
 RECURSIVE Trees(_)
@@ -61,13 +61,23 @@ Cells == { [kind |-> "cell", op |-> op, a |-> a, b |-> b] : op \in Ops, a \in Po
 Truths == { [kind |-> "truth", v |-> v, carrier |-> c] : v \in Pool \ {EmptyV, BlankV}, c \in Carriers }
 TreeCases == { [kind |-> "tree", tree |-> t, env |-> e, full |-> f] : t \in Trees(MaxDepth), e \in Valuations, f \in BOOLEAN }
 
-Init == /\ case \in Cells \cup Truths \cup TreeCases
+(* a parenthesised and / or group used as an OPERAND of a comparison: the group is a logical expression, its value is the boolean *)
+(* `Truthy(a) lop Truthy(b)` (not one of its operands), and the comparison follows the rules for a boolean operand              *)
+PoolById(id) == CHOOSE v \in Pool : v.id = id
+GroupPool == { PoolById(i) : i \in {"true", "false", "nil", "i0", "s_a", "s_empty", "l_empty"} }
+CmpPool == { PoolById(i) : i \in {"true", "false", "nil", "i0", "i1", "s_a", "s_empty", "l_true"} }
+Groups == { [kind |-> "group", lop |-> lop, a |-> a, b |-> b, op |-> op, c |-> c, side |-> sd] :
+              lop \in {"and", "or"}, a \in GroupPool, b \in GroupPool, op \in Ops, c \in CmpPool, sd \in {"l", "r"} }
+GroupValue(g) == B("g", IF g.lop = "and" THEN Truthy(g.a) /\ Truthy(g.b) ELSE Truthy(g.a) \/ Truthy(g.b))
+
+Init == /\ case \in Cells \cup Truths \cup TreeCases \cup (IF WithGroups THEN Groups ELSE {})
         /\ verdict = "pending"
 
 Decide ==
   /\ verdict = "pending"
   /\ verdict' = CASE case.kind = "cell" -> Apply(case.op, case.a, case.b)
                   [] case.kind = "truth" -> Tf(Truthy(case.v))
+                  [] case.kind = "group" -> (IF case.side = "l" THEN Apply(case.op, GroupValue(case), case.c) ELSE Apply(case.op, case.c, GroupValue(case)))
                   [] case.kind = "tree" -> Tf(EvalT(Parse(IF case.full THEN ShowFull(case.tree) ELSE Show(case.tree)), case.env))
   /\ UNCHANGED case
 Next == Decide
@@ -90,6 +100,8 @@ ShowStr(ts) == ts
 Emit == verdict # "pending" =>
    PrintT(ToJson(CASE case.kind = "cell" -> [kind |-> "cell", op |-> case.op, a |-> case.a.id, b |-> case.b.id, expect |-> verdict]
                    [] case.kind = "truth" -> [kind |-> "truth", v |-> case.v.id, carrier |-> case.carrier, expect |-> verdict]
+                   [] case.kind = "group" -> [kind |-> "group", lop |-> case.lop, a |-> case.a.id, b |-> case.b.id, op |-> case.op, c |-> case.c.id,
+                                              side |-> case.side, expect |-> verdict]
                    [] case.kind = "tree" -> [kind |-> "tree", tokens |-> IF case.full THEN ShowFull(case.tree) ELSE Show(case.tree),
                                              env |-> case.env, expect |-> verdict]))
 =============================================================================
